@@ -8,10 +8,12 @@ from vlib.harness import V
 from vlib.lib import call, mod
 
 PROPERTY = 'C09'
+AMBIENT_PASS = True        # the same search once more under unusual ambient settings (vlib.run.AMBIENT_SETTINGS)
 RULE = ('exhaustive: every (gender, event) row of the scoring table x every integer target '
         '-10..1500 (both directions: needed mark scores >= target, next-worse 0.01 grid mark scores '
         '< target), plus negative-target and unknown-pair clauses; non-trivial = a (row, target) with '
         'target >= 1 for which a mark was returned (minimality is vacuous at 0); distinct by (gender, event, target)')
+RULE = RULE + '; every whole target also as a float (same answer)'
 ASSUMPTIONS = ['athlon_score itself is checked against the exact formula by C01; here it is used as '
                'the forward function of the round trip, as the property states']
 RULE = RULE + '; unknown pairs also through the forward function at ages None / 20 / 50, and every kind of call as the first one after import'
